@@ -453,6 +453,23 @@ def s6b(ctx, rep):
                   [("isinstance(stop_criterion, StoppingCriterion)", lambda a: a[0] == "isinstance" and a[2] == "StoppingCriterion" and a[3] is True),
                    ("max_wallclock_time is not None", lambda a: a[0] == "is" and a[1].endswith(".max_wallclock_time") and a[3] is False)],
                   "a wallclock budget is not translated to simulated time (the simulated run never ends on it), or a criterion without a budget is rewritten")
+    # the rewrite is actually applied, once per run, on every path of on_tuning_start; the scheduler and the backend share one clock
+    # (a wallclock budget is compared with the time stamps the backend's time keeper produces) and the tuner does not really sleep
+    h = P.method("SimulatorCallback", "on_tuning_start")
+    ch = cfg_of(h)
+    for what, pred, why in (
+            ("the stopping criterion is rewritten onto simulated time", lambda x: isinstance(x, ast.Call) and fn_name(x) == "_modify_stop_criterion",
+             "a wallclock budget stays a real-time budget: the simulated experiment runs far beyond it (real seconds, not simulated ones, are counted)"),
+            ("the clock is started", lambda x: isinstance(x, ast.Call) and fn_name(x) == "start_of_time",
+             "simulated time is not started with the run"),):
+        marks = {n.id for n in ch.nodes if any(pred(x) for x in ch.node_walk(n.id))}
+        ok_ = bool(marks) and ch.path([ch.entry], ch.exit, deleted=marks, skip_labels=("exc",)) is None
+        rep.put(ok_, "S5", "must_follow", f"SimulatorCallback.on_tuning_start: {what} on every path", h, None, "", why)
+    tk = [x for x in walk_shallow(h.node) if isinstance(x, ast.Call) and fn_name(x) == "set_time_keeper"]
+    src = [x for x in walk_shallow(h.node) if isinstance(x, ast.Assign) and any(U(t) == "self._time_keeper" for t in x.targets)]
+    ok_ = len(tk) == 1 and len(src) == 1 and U(src[0].value).endswith(".time_keeper") and argn(tk[0], 0) is not None and U(argn(tk[0], 0)) in ("self._time_keeper", U(src[0].value))
+    rep.put(ok_, "S5", "agreement", "SimulatorCallback.on_tuning_start: the scheduler is given the backend's own time keeper", h, tk[0] if tk else None, "",
+            "scheduler and backend measure time on different clocks: time-based decisions and the simulated-time budget disagree")
 
 
 def s9(ctx, rep):
